@@ -864,4 +864,168 @@ theorem scan_text (us : List XUnit) (hok : us.all XUnit.ok = true) :
   scan_text_aux us.length us (Nat.le_refl _) hok
 
 
+/-! ## D. `canonGo` over runs of characters -/
+
+/-- after a soft solid pending white space is irrelevant -/
+theorem canon_soft (K : Bool) (E : List Ev) : ∀ p p', canonGo K p true E = canonGo K p' true E := by
+  induction E with
+  | nil => intro p p'; rfl
+  | cons e r ih =>
+    intro p p'
+    cases e with
+    | ch d =>
+      simp only [canonGo]
+      split
+      · rfl
+      · simp
+    | mark m =>
+      simp only [canonGo]
+      split
+      · simp
+      · rw [ih p p']
+
+/-- the events start with white space, an element tag next to which white space is insignificant, or end -/
+def leadsSoft (K : Bool) : List Ev → Bool
+  | [] => true
+  | .ch d :: _ => isWsD d
+  | .mark m :: r => if m.isTag then !K else leadsSoft K r
+
+theorem canon_leadsSoft (K : Bool) (ps : Bool) (E : List Ev) (h : leadsSoft K E = true) :
+    ∀ p p', canonGo K p ps E = canonGo K p' ps E := by
+  induction E with
+  | nil => intro p p'; rfl
+  | cons e r ih =>
+    intro p p'
+    cases e with
+    | ch d =>
+      simp only [leadsSoft] at h
+      simp [canonGo, h]
+    | mark m =>
+      simp only [leadsSoft] at h
+      simp only [canonGo]
+      split
+      · next ht =>
+        rw [if_pos ht] at h
+        have : K = false := by simpa using h
+        subst this; simp
+      · next ht =>
+        rw [if_neg ht] at h
+        rw [ih h p p']
+
+def afterC (p ps : Bool) : List DCh → Bool × Bool
+  | [] => (p, ps)
+  | d :: r => if isWsD d then afterC true ps r else afterC false false r
+
+def outC (p ps : Bool) : List DCh → List CEv
+  | [] => []
+  | d :: r => if isWsD d then outC true ps r else .ch (p && !ps) d :: outC false false r
+
+theorem canon_chars (K : Bool) (V : List DCh) (E : List Ev) : ∀ p ps,
+    canonGo K p ps (V.map .ch ++ E) = outC p ps V ++ canonGo K (afterC p ps V).1 (afterC p ps V).2 E := by
+  induction V with
+  | nil => intro p ps; simp [outC, afterC]
+  | cons d r ih =>
+    intro p ps
+    simp only [List.map_cons, List.cons_append, canonGo, outC, afterC]
+    split
+    · exact ih true ps
+    · simp [ih false false]
+
+theorem afterC_append_ws (V : List DCh) (w : DCh) (hw : isWsD w = true) : ∀ p ps,
+    afterC p ps (V ++ [w]) = (true, (afterC p ps V).2) := by
+  induction V with
+  | nil => intro p ps; simp [afterC, hw]
+  | cons d r ih =>
+    intro p ps
+    simp only [List.cons_append, afterC]
+    split
+    · exact ih true ps
+    · exact ih false false
+
+theorem outC_append_ws (V : List DCh) (w : DCh) (hw : isWsD w = true) : ∀ p ps,
+    outC p ps (V ++ [w]) = outC p ps V := by
+  induction V with
+  | nil => intro p ps; simp [outC, hw]
+  | cons d r ih =>
+    intro p ps
+    simp only [List.cons_append, outC]
+    split
+    · exact ih true ps
+    · rw [ih false false]
+
+/-- dropping one white space character at the head is invisible when white space is already pending or the
+previous solid is soft -/
+theorem canon_trim_left (K : Bool) (p ps : Bool) (w : DCh) (hw : isWsD w = true) (E : List Ev)
+    (h : ps = true ∨ p = true) : canonGo K p ps E = canonGo K p ps (.ch w :: E) := by
+  simp only [canonGo, hw, if_true]
+  rcases h with h | h
+  · subst h; exact canon_soft K E p true
+  · subst h; rfl
+
+/-- dropping one white space character at the end is invisible when the continuation leads soft -/
+theorem canon_trim_right (K : Bool) (p ps : Bool) (V : List DCh) (w : DCh) (hw : isWsD w = true) (R : List Ev)
+    (h : leadsSoft K R = true) :
+    canonGo K p ps (V.map .ch ++ R) = canonGo K p ps ((V ++ [w]).map .ch ++ R) := by
+  rw [canon_chars, canon_chars, outC_append_ws V w hw, afterC_append_ws V w hw]
+  simp only
+  rw [canon_leadsSoft K _ R h _ true]
+
+theorem canon_ws_run (K : Bool) (W : List DCh) (hne : W ≠ []) (hW : ∀ d ∈ W, isWsD d = true) (E : List Ev) :
+    ∀ p ps, canonGo K p ps (W.map .ch ++ E) = canonGo K true ps E := by
+  induction W with
+  | nil => exact absurd rfl hne
+  | cons d r ih =>
+    intro p ps
+    have hd : isWsD d = true := hW d (by simp)
+    simp only [List.map_cons, List.cons_append, canonGo, hd, if_true]
+    cases r with
+    | nil => simp
+    | cons d2 r2 => exact ih (by simp) (fun x hx => hW x (by simp [hx])) true ps
+
+theorem isWsD_lit_of_isS (c : Char) (h : isS c = true) : isWsD (lit c) = true := by
+  simp only [isS, Bool.or_eq_true, beq_iff_eq] at h
+  rcases h with ((h | h) | h) | h <;> subst h <;> decide
+
+theorem isWsLit_val (x : XUnit) (h : isWsLit x = true) : isWsD (x.val false) = true := by
+  cases x with
+  | lit c => simp only [isWsLit] at h; simpa [XUnit.val] using isWsD_lit_of_isS c h
+  | named _ => simp [isWsLit] at h
+  | dec _ => simp [isWsLit] at h
+  | hex _ => simp [isWsLit] at h
+
+theorem canon_sim (K : Bool) {us us' : List XUnit} (h : Sim us us') (E : List Ev) : ∀ p ps,
+    canonGo K p ps ((us'.map (XUnit.val false)).map .ch ++ E) =
+      canonGo K p ps ((us.map (XUnit.val false)).map .ch ++ E) := by
+  induction h with
+  | nil => intro p ps; rfl
+  | unit u u' r r' hv _ ih =>
+    intro p ps
+    simp only [List.map_cons, List.cons_append, canonGo, hv]
+    split
+    · exact ih true ps
+    · rw [ih false false]
+  | run w ws1 r r' hne hall hw _ ih =>
+    intro p ps
+    have hwd : isWsD ((XUnit.lit w).val false) = true := by
+      simpa [XUnit.val] using isWsD_lit_of_isS w hw
+    simp only [List.map_cons, List.cons_append, canonGo, hwd, if_true, List.map_append, List.append_assoc]
+    rw [canon_ws_run K (ws1.map (XUnit.val false)) (by simpa using hne)
+      (by intro d hd; simp only [List.mem_map] at hd; obtain ⟨x, hx, rfl⟩ := hd; exact isWsLit_val x (hall x hx))]
+    exact ih true ps
+
+theorem sim_head (us us' : List XUnit) (h : Sim us us') :
+    headIsWsD (us'.map (XUnit.val false)) = headIsWsD (us.map (XUnit.val false)) := by
+  cases h with
+  | nil => rfl
+  | unit u u' r r' hv _ => simp [headIsWsD, hv]
+  | run w ws1 r r' hne hall hw _ =>
+    have hwd : isWsD ((XUnit.lit w).val false) = true := by
+      simpa [XUnit.val] using isWsD_lit_of_isS w hw
+    cases ws1 with
+    | nil => exact absurd rfl hne
+    | cons x t =>
+      have := isWsLit_val x (hall x (by simp))
+      simp [headIsWsD, hwd, this]
+
+
 end Verif.Proofs.Xml
